@@ -371,7 +371,10 @@ def run(ctx, tier):
                       'std::time::Duration::as_secs_f64', 'std::time::Duration::as_secs_f32',
                       'std::time::Duration::as_secs', 'std::time::Duration::as_millis',
                       'std::time::Duration::as_micros', 'std::time::Duration::as_nanos',
-                      'std::time::Duration::subsec_nanos', 'std::clone::Clone::clone'}
+                      'std::time::Duration::subsec_nanos', 'std::clone::Clone::clone',
+                      # an absolute deadline: <Instant> + timeout is still only a clock value
+                      'std::ops::Add::add', 'std::ops::Sub::sub', 'std::time::Instant::checked_add', 'std::time::Instant::checked_sub',
+                      'std::option::Option::<T>::unwrap', 'std::option::Option::<T>::expect', 'std::option::Option::<T>::unwrap_or'}
     CLOCK_CMP_CALLS = {'std::cmp::PartialOrd::gt', 'std::cmp::PartialOrd::ge', 'std::cmp::PartialOrd::lt',
                        'std::cmp::PartialOrd::le'}
     n_clock = 0
@@ -466,6 +469,19 @@ def run(ctx, tier):
                         v = (bi, fn.nstmts(bi), 'switch on a raw clock value')
                         if v not in viol:
                             viol.append(v)
+                    elif u in tainted and tainted[u] == 'cmp':
+                        # time may only decide how many iterations complete: one edge of a deadline test must leave the
+                        # outermost loop around it for good (break of the planning loop / return); a deadline test that
+                        # merely cuts an inner loop short changes which decisions are taken
+                        around = [L for L in fn.loops() if bi in L['body']]
+                        if around:
+                            Lout = max(around, key=lambda l: len(l['body']))
+                            leaves = [s for s in fn.succs(bi) if Lout['header'] not in fn.reachable(s)]
+                            if not leaves:
+                                v = (bi, fn.nstmts(bi), 'deadline test inside the planning loop does not leave it: wall-clock time decides the '
+                                     'rest of the iteration (an inner loop is cut short, a step skipped) instead of only how many iterations complete')
+                                if v not in viol:
+                                    viol.append(v)
         # returning a clock value
         if 0 in tainted:
             viol.append((0, 0, 'clock-derived value returned'))
